@@ -32,7 +32,7 @@ func errClass(err error) string {
 		return "parentCheck"
 	case strings.Contains(msg, "hidden check failed"):
 		return "hiddenCheck"
-	case errors.Is(err, errInjected):
+	case errors.Is(err, errInjected), strings.Contains(msg, "injected fault"):
 		return "io"
 	case errors.Is(err, io.EOF):
 		return "eof"
